@@ -103,6 +103,19 @@ def toIsize? (d : Dec) : Option Int :=
     let v := d.scoeff * (10 : Int) ^ d.exp.toNat
     if -(2 : Int) ^ 63 ≤ v ∧ v < (2 : Int) ^ 63 then some v else none
 
+/-- `FeelNumber::is_integer` (`number.rs:132`): the value is integral, whatever the exponent -/
+def isIntegral (d : Dec) : Bool := d.exp ≥ 0 || d.coeff % 10 ^ (-d.exp).toNat == 0
+
+/-- The number whose plain text `usize::try_from` / `isize::try_from` parse (`number.rs:53`):
+the integral form `trunc()` of an integral value (`1.0` ↦ `1`), the number itself otherwise. -/
+def integralForm (d : Dec) : Dec := if isIntegral d then trunc d else d
+
+/-- `FeelNumber::to_usize` -/
+def toUsizeV? (d : Dec) : Option Nat := (integralForm d).toUsize?
+
+/-- `FeelNumber::to_isize` -/
+def toIsizeV? (d : Dec) : Option Int := (integralForm d).toIsize?
+
 def ofSigned (c : Int) (e : Int) : Dec := ⟨decide (c < 0), c.natAbs, e⟩
 
 /-- exact sum (see the header) -/
